@@ -59,6 +59,8 @@ class Bundle:
         self.name = None
         self.mod_name = None
         self.cfg = None
+        self.extend_builtin = False
+        self.override_id = False
 
 
 def make_mark_directive(name, bundle):
@@ -69,7 +71,36 @@ def make_mark_directive(name, bundle):
                 rt.loop.ev("hook", rt.rid, "mark", bundle, getattr(rt, "bundle", None), da.get("b"))
             return await nxt(parent, args, ctx, info)
 
+        async def on_pre_output_coercion(self, da, nxt, value, ctx, info):
+            # applied to a BUILT-IN scalar through `extend scalar Boolean @mark` in some bundles
+            rt = getattr(ctx, "rt", None)
+            if rt is not None:
+                rt.loop.ev("hook", rt.rid, "mark-scalar", bundle, getattr(rt, "bundle", None), da.get("b"))
+            return await nxt(value, ctx, info)
+
     return lambda: Directive("mark", schema_name=name)(Mark())
+
+
+class BundleID:
+    """A bundle's own implementation of the built-in ID scalar."""
+
+    def __init__(self, bundle):
+        self.bundle = bundle
+
+    def coerce_output(self, value):
+        if isinstance(value, bool) or not isinstance(value, (str, int)):
+            raise TypeError("ID cannot represent %r" % (value,))
+        return "%s#b%d" % (value, self.bundle)
+
+    def coerce_input(self, value):
+        if isinstance(value, bool) or not isinstance(value, (str, int)):
+            raise TypeError("ID cannot represent %r" % (value,))
+        return str(value)
+
+    def parse_literal(self, ast):
+        from tartiflette.constants import UNDEFINED_VALUE
+        from tartiflette.language.ast import IntValueNode, StringValueNode
+        return str(ast.value) if isinstance(ast, (StringValueNode, IntValueNode)) else UNDEFINED_VALUE
 
 
 def gen_bundles(tape, seed):
@@ -82,7 +113,9 @@ def gen_bundles(tape, seed):
         sdl = print_sdl(b.schema)
         # a directive with the same name in every bundle, applied to the first Query field
         first = next(iter(b.schema.t("Query").fields))
-        sdl = "directive @mark(b: Int = %d) on FIELD_DEFINITION\n" % i + sdl.replace(
+        b.extend_builtin = t.chance(30)
+        b.override_id = t.chance(30)
+        sdl = "directive @mark(b: Int = %d) on FIELD_DEFINITION | SCALAR\n" % i + sdl.replace(
             "type Query {\n  %s" % first, "type Query {\n  %s" % first, 1)
         lines = sdl.split("\n")
         for li, ln in enumerate(lines):
@@ -90,6 +123,10 @@ def gen_bundles(tape, seed):
                 lines[li + 1] = lines[li + 1] + " @mark"
                 break
         b.sdl = "\n".join(lines)
+        if b.extend_builtin:
+            b.sdl += "\nextend scalar Boolean @mark(b: %d)\n" % (100 + i)
+        if b.override_id:
+            b.sdl += "\nscalar ID\n"
         b.name = "C17_%d_b%d" % (seed, i)
         b.mod_name = "simv_c17_mod_%d_%d" % (seed, i)
         b.cfg = dict(lc=t.choose([None, True, False]), pc=t.choose([None, True, False]))
@@ -109,6 +146,9 @@ def gen_bundles(tape, seed):
 def all_steps(b):
     steps = bundle_steps(b.schema, b.name, False, bundle=b.i)
     steps.append(("directive", "mark", make_mark_directive(b.name, b.i)))
+    if b.override_id:
+        from tartiflette import Scalar
+        steps.append(("scalar", "ID", lambda: Scalar("ID", schema_name=b.name)(BundleID(b.i))))
     return steps
 
 
@@ -319,7 +359,10 @@ def run_one(seed, preset=None, tier="quick", want_case=False):
                     "shared_coordinates_max": shared, "max_cooks_overlapping": overlap[0], "probes_compared": n_cmp}
     r["faults"] = {}
     r["probes"] = {"cooks_overlapped": int(overlap[0] >= 2), "registrations_through_module": int(any(in_module[b.i] for b in bundles)),
-                   "four_bundles": int(len(bundles) == 4), "subscription_bundle": int(any(b.schema.subscription for b in bundles))}
+                   "four_bundles": int(len(bundles) == 4), "subscription_bundle": int(any(b.schema.subscription for b in bundles)),
+                   "bundle_extends_builtin_scalar": int(any(b.extend_builtin for b in bundles)),
+                   "bundle_overrides_builtin_scalar": int(any(b.override_id for b in bundles)),
+                   "override_next_to_plain_bundle": int(any(b.override_id for b in bundles) and any(not b.override_id for b in bundles))}
     if want_case or viol:
         r["case"] = {"bundles": [{"name": b.name, "sdl": b.sdl, "probes": [p[0] for p in b.probes[:2]]} for b in bundles],
                      "ops": [(o[0], o[1], o[2][0] + ":" + o[2][1] if o[2] else None) for o in ops],
